@@ -64,7 +64,7 @@ def run(ctx):
     nb = len(jobs)
     jobs += c01.random_jobs(ctx, PROP, FNS, 280 if ctx.quick else 4200)
     jobs += reject_jobs(ctx, 40 if ctx.quick else 400)
-    recs = pool.run_jobs("harness.props.c01", jobs, limit=10.0)
+    recs = pool.run_jobs("harness.props.c01", jobs, limit=10.0, reuse=True, abort=True)
     verdicts = ctx.validate("Trace_Rewire.tla", "Trace_Rewire.cfg", recs, chunk=1500)
     ctx.judge(jobs, recs, verdicts)
     scripted = [r for r in recs[:nb] if not r.get("timeout")]
